@@ -17,7 +17,7 @@ C = {
  "C04": ("Theorems: K nearest integer (capped), starts within half a sample, reported overlap = realised overlap, log spacing where unclamped, Jdes search sound and terminating for any scheduler behaviour, forced plans exact.", "7/C04",
          "monotonicity of L/K and K>=Kdes (under the attainability condition) are proved for ltf/lpsd and swept for vectorised/new_ltf; the 10% vectorised/iterative agreement is an empirical statement decided by the oracle sweep", T_SCHED),
  "C06": ("ENBW, power-spectrum and density normalisation, channel-scaling and fs-relabelling laws proved on the regenerated attribute table; window sums, scaling laws and sinusoid calibration checked on real analyses.", "7/C06",
-         "PARTIAL: the Kaiser leakage bound behind 'A^2/2' is swept, not proved (kernel homogeneity is proved for all detrend modes, KernelLin.v)", T_GEN_A),
+         "the sinusoid response and |ps/(A^2/2)-1| <= 2rho+rho^2 (rho = |W(2w0)|/S1) are proved for any real window (Sinusoid.v); PARTIAL: that rho is below 10^(-P/20) for a Kaiser window is the side-lobe claim of C12, swept not proved", T_GEN_A),
  "C09": ("coherence in [0,1] from Cauchy-Schwarz, coherence 1 when |XY|^2=XX*YY, swap symmetry, GyyCx+GyyRx=Gyy, GyySx=Gyy(1-coh), auto-in-pair — proved on the regenerated table.", "7/C09",
          "Cauchy-Schwarz is proved for the statistics returned by the regenerated cross kernels (KernelCS.v); float coherence may exceed 1 by rounding (1e-12 allowed)", T_GEN_A),
  "C10": ("Each *_dev/*_error of the regenerated table equals the Bendat-Piersol expression; dev = estimate x error; 1/sqrt(n) scaling; magnitude error <= phase error <= pi/2 x magnitude error (Jordan's inequality proved), both vanishing at coherence 1.", "7/C10",
